@@ -598,6 +598,12 @@ type Contracts struct {
 	Lemmas []*Lemma
 	Consts map[string]*ConstDef
 	Files  []string
+	Locks  []LockEntry // lock order table: "lock Type.field $Ghost", earlier entries are acquired first
+}
+
+type LockEntry struct {
+	Field string // Type.field
+	Ghost string // ghost flag name without '$'
 }
 
 func newContracts() *Contracts {
@@ -609,7 +615,7 @@ var clauseKeywords = map[string]bool{
 	"property": true, "requires": true, "ensures": true, "nopanic": true, "overflow": true,
 	"untrusted": true, "loop": true, "modifies": true, "assume": true, "trusted": true,
 	"fresh": true, "params": true, "results": true, "let": true, "assert": true, "var": true,
-	"dropped": true, "param": true, "end": true, "checks": true, "effect": true, "noframe": true,
+	"dropped": true, "param": true, "end": true, "checks": true, "effect": true, "noframe": true, "lock": true,
 }
 
 // parseContractFile reads a zz_contracts_verif.go file.
@@ -916,6 +922,13 @@ func (c *Contracts) parseContractFile(path, pkgPath string) error {
 			for _, v := range vars {
 				curLemma.Stmts = append(curLemma.Stmts, LemmaStmt{Kind: "var", Names: []string{v.Name}, Type: v.Type})
 			}
+		case "lock":
+			// lock Type.field $Ghost
+			fs := strings.Fields(rest)
+			if len(fs) != 2 || !strings.HasPrefix(fs[1], "$") {
+				return fail(l.n, "lock Type.field $Ghost")
+			}
+			c.Locks = append(c.Locks, LockEntry{Field: fs[0], Ghost: fs[1][1:]})
 		case "const":
 			k := strings.Index(rest, "=")
 			if k < 0 {
